@@ -287,20 +287,29 @@ theorem updateAccountContacts_nf (e : EpName) : updateAccountContacts e = (do
   simp only [liftAcct_contactsUpdated]
   rfl
 
-theorem updateAccountKey_nf (e : EpName) : updateAccountKey e = (do
+theorem checkNewKey_nf (e : EpName) (url : Url) : checkNewKey e url = (do
     let sh ← getShared
-    let er ← getEndpointM e
-    match sh.getPastKey er.keyHash with
-    | none => failAt .pastKey
-    | some old => do
-      let r ← exchange e .keyChange (.dirKeyChange e) old er.accountUrl
-      match r with
-      | .account _ | .okOther => do
-        modEpM e keyUpd
-        saveAccount
-      | .acmeErr .accountDoesNotExist => registerAccount e
-      | _ => failAt .keyChange) := by
-  unfold updateAccountKey
+    let p ← exchange e .accountProbe (.url url) sh.currentKey url
+    match p with
+    | .account _ | .okOther => do
+      modEpM e keyUpd
+      saveAccount
+    | _ => failAt .keyChange) := by
+  unfold checkNewKey
+  simp only [liftAcct_keyRolled]
+  rfl
+
+theorem keyChangeStep_nf (ca : Bool) (e : EpName) (old : KeyId) (url : Url) :
+    keyChangeStep ca e old url = (do
+    let r ← exchange e .keyChange (.dirKeyChange e) old url
+    match r with
+    | .account _ | .okOther => do
+      modEpM e keyUpd
+      saveAccount
+    | .acmeErr .accountDoesNotExist => registerAccount e
+    | .acmeErr _ => if ca then checkNewKey e url else failAt .keyChange
+    | _ => failAt .keyChange) := by
+  unfold keyChangeStep
   simp only [liftAcct_keyRolled]
   rfl
 
@@ -311,6 +320,57 @@ theorem modEpM_run (e : EpName) (G : Shared → EpRec → EpRec) (s : MWorld) :
           { s.acct with endpoints := modFirst e (G s.acct.shared) s.acct.endpoints } }) := by
   unfold modEpM liftAcct Account.modEndpoint
   cases h : s.acct.getEndpoint e <;> simp only [h]
+
+/-- GHOST: the record after the CA processed a request whose answer was lost. -/
+def lostUpd (k : ReqKind) (sh : Shared) (r : EpRec) : EpRec :=
+  match k with
+  | .keyChange => { r with ca := { r.ca with key := sh.currentKey } }
+  | .accountUpdate => { r with ca := { r.ca with contacts := some sh.contacts } }
+  | _ => r
+
+/-- What `exchange` writes into the record of `ep`: the ghost effect of a lost answer, else
+nothing. -/
+def exchUpd (k : ReqKind) (a : Ans) (sh : Shared) : EpRec → EpRec :=
+  match a with
+  | .lost => lostUpd k sh
+  | _ => fun r => r
+
+theorem lostUpd_id {k : ReqKind} (h1 : k ≠ .keyChange) (h2 : k ≠ .accountUpdate) (sh : Shared) :
+    lostUpd k sh = fun r => r := by
+  funext r
+  cases k <;> simp_all [lostUpd]
+
+def Account.withEndpoints (a : Account) (l : List (EpName × EpRec)) : Account :=
+  { a with endpoints := l }
+
+theorem ghostLost_eq (a : Account) (ep : EpName) (k : ReqKind) :
+    a.ghostLost ep k = a.withEndpoints (modFirst ep (lostUpd k a.shared) a.endpoints) := by
+  by_cases h1 : k = .keyChange
+  · subst h1; rfl
+  · by_cases h2 : k = .accountUpdate
+    · subst h2; rfl
+    · rw [lostUpd_id h1 h2, modFirst_id]
+      cases k <;> first | rfl | exact absurd rfl h1 | exact absurd rfl h2
+
+/-- The state after one exchange answered `r`. -/
+def MWorld.afterExch (s : MWorld) (ev : MEv) (rest : List Ans) (g : EpRec → EpRec) (ep : EpName) :
+    MWorld :=
+  { s with exs := rest, log := s.log ++ [ev],
+           acct := s.acct.withEndpoints (modFirst ep g s.acct.endpoints) }
+
+/-- `exchange` in closed form. -/
+theorem exchange_run (ep : EpName) (k : ReqKind) (tg : Target) (sg : KeyId) (kid : Url)
+    (s : MWorld) :
+    exchange ep k tg sg kid s = match s.exs with
+      | [] => (.stuck, s)
+      | r :: rest => (.val r,
+          s.afterExch (.req ep k tg sg kid r) rest (exchUpd k r s.acct.shared) ep) := by
+  unfold exchange
+  rcases s.exs with _ | ⟨r, rest⟩
+  · rfl
+  · cases r with
+    | lost => simp only [ghostLost_eq]; rfl
+    | _ => simp only [MWorld.afterExch, exchUpd, modFirst_id]; rfl
 
 /-! #### Law 1: the frame -/
 
@@ -342,10 +402,12 @@ theorem FrameR.getEndpointM (e e' : EpName) : MSat (FrameR e) (getEndpointM e') 
   constructor; intro s; unfold AccountMulti.getEndpointM
   cases s.acct.getEndpoint e' <;> exact FrameR.refl' e _ s
 
-theorem FrameR.exchange (e ep : EpName) (k : ReqKind) (tg : Target) (sg : KeyId) (kid : Url) :
-    MSat (FrameR e) (exchange ep k tg sg kid) := by
-  constructor; intro s; unfold AccountMulti.exchange
-  cases s.exs <;> exact FrameR.of_eq e rfl rfl
+theorem FrameR.exchange (e : EpName) (k : ReqKind) (tg : Target) (sg : KeyId) (kid : Url) :
+    MSat (FrameR e) (exchange e k tg sg kid) := by
+  constructor; intro s; rw [exchange_run]
+  rcases s.exs with _ | ⟨r, rest⟩
+  · exact FrameR.of_eq e rfl rfl
+  · exact ⟨rfl, ⟨exchUpd k r s.acct.shared, rfl⟩, .inl rfl⟩
 
 theorem FrameR.hookGroup (e : EpName) (ty : HookKind) : MSat (FrameR e) (hookGroup ty) := by
   constructor; intro s; unfold AccountMulti.hookGroup
@@ -364,8 +426,8 @@ theorem FrameR.modEpM (e : EpName) (G : Shared → EpRec → EpRec) : MSat (Fram
 
 section FrameWalk
 local macro "fw" "[" ts:term,* "]" : tactic =>
-  `(tactic| mwalk [$ts,*] [FrameR.exchange _, FrameR.hookGroup _, FrameR.writeAccount _,
-                  FrameR.modEpM _, FrameR.getEndpointM _ _] (FrameR.law _))
+  `(tactic| mwalk [$ts,*] [FrameR.exchange _ _ _ _ _, FrameR.hookGroup _, FrameR.writeAccount _,
+                  FrameR.modEpM _ _, FrameR.getEndpointM _ _] (FrameR.law _))
 
 theorem FrameR.saveAccount (e : EpName) : MSat (FrameR e) saveAccount := by
   unfold AccountMulti.saveAccount; fw []
@@ -374,11 +436,22 @@ theorem FrameR.registerAccount (e : EpName) : MSat (FrameR e) (registerAccount e
 theorem FrameR.updateAccountContacts (e : EpName) :
     MSat (FrameR e) (updateAccountContacts e) := by
   rw [updateAccountContacts_nf]; fw [FrameR.saveAccount e, FrameR.registerAccount e]
-theorem FrameR.updateAccountKey (e : EpName) : MSat (FrameR e) (updateAccountKey e) := by
-  rw [updateAccountKey_nf]; fw [FrameR.saveAccount e, FrameR.registerAccount e]
+theorem FrameR.checkNewKey (e : EpName) (u : Url) : MSat (FrameR e) (checkNewKey e u) := by
+  rw [checkNewKey_nf]; fw [FrameR.saveAccount e]
+theorem FrameR.keyChangeStep (ca : Bool) (e : EpName) (old : KeyId) (u : Url) :
+    MSat (FrameR e) (keyChangeStep ca e old u) := by
+  rw [keyChangeStep_nf]; fw [FrameR.saveAccount e, FrameR.registerAccount e, FrameR.checkNewKey e]
+theorem FrameR.keyChangeChecked (e : EpName) (old : KeyId) (u : Url) :
+    MSat (FrameR e) (keyChangeChecked e old u) := by
+  unfold AccountMulti.keyChangeChecked
+  fw [FrameR.keyChangeStep _ e, FrameR.checkNewKey e]
+theorem FrameR.updateAccountKey (v : Variant) (e : EpName) :
+    MSat (FrameR e) (updateAccountKey v e) := by
+  unfold AccountMulti.updateAccountKey
+  fw [FrameR.keyChangeStep _ e, FrameR.keyChangeChecked e]
 theorem FrameR.synchronize (v : Variant) (e : EpName) : MSat (FrameR e) (synchronize v e) := by
   unfold AccountMulti.synchronize
-  fw [FrameR.registerAccount e, FrameR.updateAccountContacts e, FrameR.updateAccountKey e]
+  fw [FrameR.registerAccount e, FrameR.updateAccountContacts e, FrameR.updateAccountKey v e]
 end FrameWalk
 
 /-! #### Law 2: every event added satisfies a predicate -/
@@ -431,12 +504,14 @@ theorem EvR.modEpM (P : MEv → Prop) (e : EpName) (G : Shared → EpRec → EpR
 
 /-- (a) Through which `Endpoint` object and to which URL a request of the synchronisation of `e`
 goes: through `e`; creation to `e`'s `newAccount` with the key as `jwk`; roll-over to `e`'s
-`keyChange`; contact update to the URL used as `kid`. -/
+`keyChange`; contact update, and the queries of the account made by the roll-over block, to the URL
+used as `kid`. -/
 def ReqOk (e : EpName) : MEv → Prop
   | .req ep k tg _ kid _ =>
     ep = e ∧ ((k = .newAccount ∧ tg = .dirNewAccount e ∧ kid = 0) ∨
               (k = .keyChange ∧ tg = .dirKeyChange e) ∨
-              (k = .accountUpdate ∧ tg = .url kid))
+              (k = .accountUpdate ∧ tg = .url kid) ∨
+              (k = .accountProbe ∧ tg = .url kid))
   | _ => True
 
 /-- Not a key roll-over request. -/
@@ -459,15 +534,29 @@ theorem ReqOk.updateAccountContacts (e : EpName) :
     MSat (EvR (ReqOk e)) (updateAccountContacts e) := by
   rw [updateAccountContacts_nf]
   ew [ReqOk.saveAccount e, ReqOk.registerAccount e,
-    EvR.exchange (ReqOk e) _ _ _ _ _ (fun _ => ⟨rfl, .inr (.inr ⟨rfl, rfl⟩)⟩)] (ReqOk e)
-theorem ReqOk.updateAccountKey (e : EpName) : MSat (EvR (ReqOk e)) (updateAccountKey e) := by
-  rw [updateAccountKey_nf]
-  ew [ReqOk.saveAccount e, ReqOk.registerAccount e,
+    EvR.exchange (ReqOk e) _ _ _ _ _ (fun _ => ⟨rfl, .inr (.inr (.inl ⟨rfl, rfl⟩))⟩)] (ReqOk e)
+theorem ReqOk.checkNewKey (e : EpName) (u : Url) : MSat (EvR (ReqOk e)) (checkNewKey e u) := by
+  rw [checkNewKey_nf]
+  ew [ReqOk.saveAccount e,
+    EvR.exchange (ReqOk e) _ _ _ _ _ (fun _ => ⟨rfl, .inr (.inr (.inr ⟨rfl, rfl⟩))⟩)] (ReqOk e)
+theorem ReqOk.keyChangeStep (ca : Bool) (e : EpName) (old : KeyId) (u : Url) :
+    MSat (EvR (ReqOk e)) (keyChangeStep ca e old u) := by
+  rw [keyChangeStep_nf]
+  ew [ReqOk.saveAccount e, ReqOk.registerAccount e, ReqOk.checkNewKey e,
     EvR.exchange (ReqOk e) _ _ _ _ _ (fun _ => ⟨rfl, .inr (.inl ⟨rfl, rfl⟩)⟩)] (ReqOk e)
+theorem ReqOk.keyChangeChecked (e : EpName) (old : KeyId) (u : Url) :
+    MSat (EvR (ReqOk e)) (keyChangeChecked e old u) := by
+  unfold AccountMulti.keyChangeChecked
+  ew [ReqOk.keyChangeStep _ e, ReqOk.checkNewKey e,
+    EvR.exchange (ReqOk e) _ _ _ _ _ (fun _ => ⟨rfl, .inr (.inr (.inr ⟨rfl, rfl⟩))⟩)] (ReqOk e)
+theorem ReqOk.updateAccountKey (v : Variant) (e : EpName) :
+    MSat (EvR (ReqOk e)) (updateAccountKey v e) := by
+  unfold AccountMulti.updateAccountKey
+  ew [ReqOk.keyChangeStep _ e, ReqOk.keyChangeChecked e, MSat.getShared (EvR.law (ReqOk e))] (ReqOk e)
 theorem ReqOk.synchronize (v : Variant) (e : EpName) :
     MSat (EvR (ReqOk e)) (synchronize v e) := by
   unfold AccountMulti.synchronize
-  ew [ReqOk.registerAccount e, ReqOk.updateAccountContacts e, ReqOk.updateAccountKey e] (ReqOk e)
+  ew [ReqOk.registerAccount e, ReqOk.updateAccountContacts e, ReqOk.updateAccountKey v e] (ReqOk e)
 
 theorem NotKeyChange.saveAccount : MSat (EvR NotKeyChange) saveAccount := by
   unfold AccountMulti.saveAccount; ew [] NotKeyChange
@@ -481,6 +570,11 @@ theorem NotKeyChange.updateAccountContacts (e : EpName) :
   rw [updateAccountContacts_nf]
   ew [NotKeyChange.saveAccount, NotKeyChange.registerAccount e,
     EvR.exchange NotKeyChange _ _ _ _ _ (fun _ => by simp [NotKeyChange])] NotKeyChange
+theorem NotKeyChange.checkNewKey (e : EpName) (u : Url) :
+    MSat (EvR NotKeyChange) (checkNewKey e u) := by
+  rw [checkNewKey_nf]
+  ew [NotKeyChange.saveAccount, MSat.getShared (EvR.law NotKeyChange),
+    EvR.exchange NotKeyChange _ _ _ _ _ (fun _ => by simp [NotKeyChange])] NotKeyChange
 end EvWalk
 
 /-! #### Law 3: the key each CA holds is the one on record, and the account still has it -/
@@ -492,14 +586,21 @@ def Held (sh : Shared) (r : EpRec) : Prop :=
 
 def HeldAll (a : Account) : Prop := ∀ e r, a.getEndpoint e = some r → Held a.shared r
 
-def HeldR : MWorld → Tag → MWorld → Prop := fun s _ s' => HeldAll s.acct → HeldAll s'.acct
+/-- No answer of the script is "processed, answer lost". -/
+def NoLost (l : List Ans) : Prop := Ans.lost ∉ l
+
+/-- `HeldAll` is kept as long as no answer is lost after the CA processed the request (the only way
+the CA's record can move without the client being told). -/
+def HeldR : MWorld → Tag → MWorld → Prop := fun s _ s' =>
+  NoLost s.exs → HeldAll s.acct → HeldAll s'.acct ∧ NoLost s'.exs
 
 theorem HeldR.law : MLaw HeldR where
-  refl := fun _ _ _ h => h
-  trans := fun h1 h2 h => h2 (h1 h)
+  refl := fun _ _ _ hn h => ⟨h, hn⟩
+  trans := fun h1 h2 hn h => h2 (h1 hn h).2 (h1 hn h).1
 
-theorem HeldR.of_eq {t : Tag} {s s' : MWorld} (h : s'.acct = s.acct) : HeldR s t s' := by
-  intro hh; rw [h]; exact hh
+theorem HeldR.of_eq {t : Tag} {s s' : MWorld} (h : s'.acct = s.acct) (hx : s'.exs = s.exs) :
+    HeldR s t s' := by
+  intro hn hh; rw [h, hx]; exact ⟨hh, hn⟩
 
 theorem HeldAll.modFirst {a : Account} (h : HeldAll a) (e : EpName) (g : EpRec → EpRec)
     (hg : ∀ r, Held a.shared r → Held a.shared (g r)) :
@@ -530,28 +631,38 @@ theorem Held.contactsUpd (sh : Shared) (r : EpRec) (h : Held sh r) : Held sh (co
 
 theorem HeldR.getEndpointM (e : EpName) : MSat HeldR (getEndpointM e) := by
   constructor; intro s; unfold AccountMulti.getEndpointM
-  cases s.acct.getEndpoint e <;> exact HeldR.of_eq rfl
+  cases s.acct.getEndpoint e <;> exact HeldR.of_eq rfl rfl
 
 theorem HeldR.exchange (ep : EpName) (k : ReqKind) (tg : Target) (sg : KeyId) (kid : Url) :
     MSat HeldR (exchange ep k tg sg kid) := by
-  constructor; intro s; unfold AccountMulti.exchange
-  cases s.exs <;> exact HeldR.of_eq rfl
+  constructor; intro s; rw [exchange_run]
+  rcases hx : s.exs with _ | ⟨r, rest⟩
+  · exact HeldR.of_eq rfl rfl
+  · intro hn hh
+    rw [hx] at hn
+    have hr : r ≠ .lost := fun h => hn (by rw [h]; exact List.mem_cons_self)
+    have hrest : NoLost rest := fun h => hn (List.mem_cons_of_mem _ h)
+    refine ⟨?_, hrest⟩
+    have : exchUpd k r s.acct.shared = fun r => r := by
+      cases r <;> first | rfl | exact absurd rfl hr
+    simp only [MWorld.afterExch, this, modFirst_id]
+    exact hh
 
 theorem HeldR.hookGroup (ty : HookKind) : MSat HeldR (hookGroup ty) := by
   constructor; intro s; unfold AccountMulti.hookGroup
-  cases s.hks <;> exact HeldR.of_eq rfl
+  cases s.hks <;> exact HeldR.of_eq rfl rfl
 
-theorem HeldR.writeAccount : MSat HeldR writeAccount := ⟨fun _ => HeldR.of_eq rfl⟩
+theorem HeldR.writeAccount : MSat HeldR writeAccount := ⟨fun _ => HeldR.of_eq rfl rfl⟩
 
 theorem HeldR.modEpM (e : EpName) (G : Shared → EpRec → EpRec)
     (hG : ∀ sh r, Held sh r → Held sh (G sh r)) : MSat HeldR (modEpM e G) := by
   constructor; intro s
   unfold AccountMulti.modEpM liftAcct Account.modEndpoint
   cases h : s.acct.getEndpoint e
-  · simp only [h]; exact HeldR.of_eq rfl
+  · simp only [h]; exact HeldR.of_eq rfl rfl
   · simp only [h]
-    intro hh
-    exact hh.modFirst e _ (hG _)
+    intro hn hh
+    exact ⟨hh.modFirst e _ (hG _), hn⟩
 
 section HeldWalk
 local macro "hw" "[" ts:term,* "]" : tactic =>
@@ -567,12 +678,150 @@ theorem HeldR.registerAccount (e : EpName) : MSat HeldR (registerAccount e) := b
   rw [registerAccount_nf]; hw [HeldR.saveAccount]
 theorem HeldR.updateAccountContacts (e : EpName) : MSat HeldR (updateAccountContacts e) := by
   rw [updateAccountContacts_nf]; hw [HeldR.saveAccount, HeldR.registerAccount e]
-theorem HeldR.updateAccountKey (e : EpName) : MSat HeldR (updateAccountKey e) := by
-  rw [updateAccountKey_nf]; hw [HeldR.saveAccount, HeldR.registerAccount e]
+theorem HeldR.checkNewKey (e : EpName) (u : Url) : MSat HeldR (checkNewKey e u) := by
+  rw [checkNewKey_nf]; hw [HeldR.saveAccount]
+theorem HeldR.keyChangeStep (ca : Bool) (e : EpName) (old : KeyId) (u : Url) :
+    MSat HeldR (keyChangeStep ca e old u) := by
+  rw [keyChangeStep_nf]; hw [HeldR.saveAccount, HeldR.registerAccount e, HeldR.checkNewKey e]
+theorem HeldR.keyChangeChecked (e : EpName) (old : KeyId) (u : Url) :
+    MSat HeldR (keyChangeChecked e old u) := by
+  unfold AccountMulti.keyChangeChecked
+  hw [HeldR.keyChangeStep _ e, HeldR.checkNewKey e]
+theorem HeldR.updateAccountKey (v : Variant) (e : EpName) : MSat HeldR (updateAccountKey v e) := by
+  unfold AccountMulti.updateAccountKey
+  hw [HeldR.keyChangeStep _ e, HeldR.keyChangeChecked e]
 theorem HeldR.synchronize (v : Variant) (e : EpName) : MSat HeldR (synchronize v e) := by
   unfold AccountMulti.synchronize
-  hw [HeldR.registerAccount e, HeldR.updateAccountContacts e, HeldR.updateAccountKey e]
+  hw [HeldR.registerAccount e, HeldR.updateAccountContacts e, HeldR.updateAccountKey v e]
 end HeldWalk
+
+/-! #### Law 3′: with lost answers — the CA holds the recorded key OR the current one -/
+
+/-- For a record with an account URL: a key fingerprint is recorded, the account still has that
+key, and the CA holds that key — or the account's CURRENT key (a roll-over it processed whose answer
+was lost: the client still records the superseded key). -/
+def HeldP (sh : Shared) (r : EpRec) : Prop :=
+  r.accountUrl ≠ 0 → ∃ k, r.keyHash = some k ∧ (r.ca.key = k ∨ r.ca.key = sh.currentKey) ∧
+    (k = sh.currentKey ∨ k ∈ sh.pastKeys)
+
+def HeldPAll (a : Account) : Prop := ∀ e r, a.getEndpoint e = some r → HeldP a.shared r
+
+theorem Held.toP {sh : Shared} {r : EpRec} (h : Held sh r) : HeldP sh r := by
+  intro hu
+  obtain ⟨k, h1, h2, h3⟩ := h hu
+  exact ⟨k, h1, .inl h2, h3⟩
+
+theorem HeldAll.toP {a : Account} (h : HeldAll a) : HeldPAll a := fun e r hr => (h e r hr).toP
+
+def HeldPR : MWorld → Tag → MWorld → Prop := fun s _ s' => HeldPAll s.acct → HeldPAll s'.acct
+
+theorem HeldPR.law : MLaw HeldPR where
+  refl := fun _ _ _ h => h
+  trans := fun h1 h2 h => h2 (h1 h)
+
+theorem HeldPR.of_eq {t : Tag} {s s' : MWorld} (h : s'.acct = s.acct) : HeldPR s t s' := by
+  intro hh; rw [h]; exact hh
+
+theorem HeldPAll.modFirst {a : Account} (h : HeldPAll a) (e : EpName) (g : EpRec → EpRec)
+    (hg : ∀ r, HeldP a.shared r → HeldP a.shared (g r)) :
+    HeldPAll { a with endpoints := modFirst e g a.endpoints } := by
+  intro e' r' hr'
+  unfold Account.getEndpoint at hr'
+  simp only at hr'
+  by_cases he : e' = e
+  · subst he
+    rw [lookupEp_modFirst_same] at hr'
+    rcases hl : lookupEp e' a.endpoints with _ | r
+    · rw [hl] at hr'; cases hr'
+    · rw [hl] at hr'
+      simp only [Option.map_some, Option.some.injEq] at hr'
+      rw [← hr']
+      exact hg r (h e' r hl)
+  · rw [lookupEp_modFirst_other he] at hr'
+    exact h e' r' hr'
+
+theorem HeldP.regUpd (sh : Shared) (loc : Url) (o : Option Url) (ex : Bool) (r : EpRec) :
+    HeldP sh (regUpd sh loc o ex r) := fun _ => ⟨sh.currentKey, rfl, .inl rfl, .inl rfl⟩
+
+theorem HeldP.keyUpd (sh : Shared) (r : EpRec) : HeldP sh (keyUpd sh r) :=
+  fun _ => ⟨sh.currentKey, rfl, .inl rfl, .inl rfl⟩
+
+theorem HeldP.contactsUpd (sh : Shared) (r : EpRec) (h : HeldP sh r) :
+    HeldP sh (contactsUpd sh r) := fun hu => h hu
+
+theorem HeldP.exchUpd (k : ReqKind) (a : Ans) (sh : Shared) (r : EpRec) (h : HeldP sh r) :
+    HeldP sh (exchUpd k a sh r) := by
+  cases a with
+  | lost =>
+    by_cases h1 : k = .keyChange
+    · subst h1
+      intro hu
+      obtain ⟨k', g1, _, g3⟩ := h hu
+      exact ⟨k', g1, .inr rfl, g3⟩
+    · by_cases h2 : k = .accountUpdate
+      · subst h2; exact fun hu => h hu
+      · simp only [AccountMulti.exchUpd, lostUpd_id h1 h2]; exact h
+  | _ => exact h
+
+theorem HeldPR.getEndpointM (e : EpName) : MSat HeldPR (getEndpointM e) := by
+  constructor; intro s; unfold AccountMulti.getEndpointM
+  cases s.acct.getEndpoint e <;> exact HeldPR.of_eq rfl
+
+theorem HeldPR.exchange (ep : EpName) (k : ReqKind) (tg : Target) (sg : KeyId) (kid : Url) :
+    MSat HeldPR (exchange ep k tg sg kid) := by
+  constructor; intro s; rw [exchange_run]
+  rcases s.exs with _ | ⟨r, rest⟩
+  · exact HeldPR.of_eq rfl
+  · intro hh
+    exact hh.modFirst ep _ (HeldP.exchUpd k r _)
+
+theorem HeldPR.hookGroup (ty : HookKind) : MSat HeldPR (hookGroup ty) := by
+  constructor; intro s; unfold AccountMulti.hookGroup
+  cases s.hks <;> exact HeldPR.of_eq rfl
+
+theorem HeldPR.writeAccount : MSat HeldPR writeAccount := ⟨fun _ => HeldPR.of_eq rfl⟩
+
+theorem HeldPR.modEpM (e : EpName) (G : Shared → EpRec → EpRec)
+    (hG : ∀ sh r, HeldP sh r → HeldP sh (G sh r)) : MSat HeldPR (modEpM e G) := by
+  constructor; intro s
+  unfold AccountMulti.modEpM liftAcct Account.modEndpoint
+  cases h : s.acct.getEndpoint e
+  · simp only [h]; exact HeldPR.of_eq rfl
+  · simp only [h]
+    intro hh
+    exact hh.modFirst e _ (hG _)
+
+section HeldPWalk
+local macro "pw" "[" ts:term,* "]" : tactic =>
+  `(tactic| mwalk [$ts,*] [HeldPR.exchange _ _ _ _ _, HeldPR.hookGroup _, HeldPR.writeAccount,
+      HeldPR.getEndpointM _,
+      HeldPR.modEpM _ _ (fun sh r _ => HeldP.regUpd sh _ _ _ r),
+      HeldPR.modEpM _ _ (fun sh r _ => HeldP.keyUpd sh r),
+      HeldPR.modEpM _ _ HeldP.contactsUpd] HeldPR.law)
+
+theorem HeldPR.saveAccount : MSat HeldPR saveAccount := by
+  unfold AccountMulti.saveAccount; pw []
+theorem HeldPR.registerAccount (e : EpName) : MSat HeldPR (registerAccount e) := by
+  rw [registerAccount_nf]; pw [HeldPR.saveAccount]
+theorem HeldPR.updateAccountContacts (e : EpName) : MSat HeldPR (updateAccountContacts e) := by
+  rw [updateAccountContacts_nf]; pw [HeldPR.saveAccount, HeldPR.registerAccount e]
+theorem HeldPR.checkNewKey (e : EpName) (u : Url) : MSat HeldPR (checkNewKey e u) := by
+  rw [checkNewKey_nf]; pw [HeldPR.saveAccount]
+theorem HeldPR.keyChangeStep (ca : Bool) (e : EpName) (old : KeyId) (u : Url) :
+    MSat HeldPR (keyChangeStep ca e old u) := by
+  rw [keyChangeStep_nf]; pw [HeldPR.saveAccount, HeldPR.registerAccount e, HeldPR.checkNewKey e]
+theorem HeldPR.keyChangeChecked (e : EpName) (old : KeyId) (u : Url) :
+    MSat HeldPR (keyChangeChecked e old u) := by
+  unfold AccountMulti.keyChangeChecked
+  pw [HeldPR.keyChangeStep _ e, HeldPR.checkNewKey e]
+theorem HeldPR.updateAccountKey (v : Variant) (e : EpName) :
+    MSat HeldPR (updateAccountKey v e) := by
+  unfold AccountMulti.updateAccountKey
+  pw [HeldPR.keyChangeStep _ e, HeldPR.keyChangeChecked e]
+theorem HeldPR.synchronize (v : Variant) (e : EpName) : MSat HeldPR (synchronize v e) := by
+  unfold AccountMulti.synchronize
+  pw [HeldPR.registerAccount e, HeldPR.updateAccountContacts e, HeldPR.updateAccountKey v e]
+end HeldPWalk
 
 /-! #### Law 4: a known endpoint stays known and is never reported unknown -/
 
@@ -594,8 +843,19 @@ theorem KnownR.getEndpointM (e : EpName) : MSat (KnownR e) (getEndpointM e) := b
 
 theorem KnownR.exchange (e ep : EpName) (k : ReqKind) (tg : Target) (sg : KeyId) (kid : Url) :
     MSat (KnownR e) (exchange ep k tg sg kid) := by
-  constructor; intro s hk; unfold AccountMulti.exchange
-  cases s.exs <;> exact ⟨by simp, hk⟩
+  constructor; intro s hk; rw [exchange_run]
+  rcases s.exs with _ | ⟨r, rest⟩
+  · exact ⟨by simp, hk⟩
+  · refine ⟨by simp, ?_⟩
+    unfold Known Account.getEndpoint at hk ⊢
+    simp only [MWorld.afterExch, Account.withEndpoints]
+    by_cases he : e = ep
+    · subst he
+      rw [lookupEp_modFirst_same]
+      cases h : lookupEp e s.acct.endpoints
+      · rw [h] at hk; cases hk
+      · rfl
+    · rw [lookupEp_modFirst_other he]; exact hk
 
 theorem KnownR.hookGroup (e : EpName) (ty : HookKind) : MSat (KnownR e) (hookGroup ty) := by
   constructor; intro s hk; unfold AccountMulti.hookGroup
@@ -628,11 +888,22 @@ theorem KnownR.registerAccount (e : EpName) : MSat (KnownR e) (registerAccount e
   rw [registerAccount_nf]; kw [KnownR.saveAccount e]
 theorem KnownR.updateAccountContacts (e : EpName) : MSat (KnownR e) (updateAccountContacts e) := by
   rw [updateAccountContacts_nf]; kw [KnownR.saveAccount e, KnownR.registerAccount e]
-theorem KnownR.updateAccountKey (e : EpName) : MSat (KnownR e) (updateAccountKey e) := by
-  rw [updateAccountKey_nf]; kw [KnownR.saveAccount e, KnownR.registerAccount e]
+theorem KnownR.checkNewKey (e : EpName) (u : Url) : MSat (KnownR e) (checkNewKey e u) := by
+  rw [checkNewKey_nf]; kw [KnownR.saveAccount e]
+theorem KnownR.keyChangeStep (ca : Bool) (e : EpName) (old : KeyId) (u : Url) :
+    MSat (KnownR e) (keyChangeStep ca e old u) := by
+  rw [keyChangeStep_nf]; kw [KnownR.saveAccount e, KnownR.registerAccount e, KnownR.checkNewKey e]
+theorem KnownR.keyChangeChecked (e : EpName) (old : KeyId) (u : Url) :
+    MSat (KnownR e) (keyChangeChecked e old u) := by
+  unfold AccountMulti.keyChangeChecked
+  kw [KnownR.keyChangeStep _ e, KnownR.checkNewKey e]
+theorem KnownR.updateAccountKey (v : Variant) (e : EpName) :
+    MSat (KnownR e) (updateAccountKey v e) := by
+  unfold AccountMulti.updateAccountKey
+  kw [KnownR.keyChangeStep _ e, KnownR.keyChangeChecked e]
 theorem KnownR.synchronize (v : Variant) (e : EpName) : MSat (KnownR e) (synchronize v e) := by
   unfold AccountMulti.synchronize
-  kw [KnownR.registerAccount e, KnownR.updateAccountContacts e, KnownR.updateAccountKey e]
+  kw [KnownR.registerAccount e, KnownR.updateAccountContacts e, KnownR.updateAccountKey v e]
 end KnownWalk
 
 /-! #### Two runs side by side (non-interference) -/
@@ -729,11 +1000,20 @@ theorem NI2.registerAccount : NI2 Q (registerAccount e) := by
   rw [registerAccount_nf]; nwalk [NI2.saveAccount H] H
 theorem NI2.updateAccountContacts : NI2 Q (updateAccountContacts e) := by
   rw [updateAccountContacts_nf]; nwalk [NI2.saveAccount H, NI2.registerAccount H] H
-theorem NI2.updateAccountKey : NI2 Q (updateAccountKey e) := by
-  rw [updateAccountKey_nf]; nwalk [NI2.saveAccount H, NI2.registerAccount H] H
+theorem NI2.checkNewKey (u : Url) : NI2 Q (checkNewKey e u) := by
+  rw [checkNewKey_nf]; nwalk [NI2.saveAccount H] H
+theorem NI2.keyChangeStep (ca : Bool) (old : KeyId) (u : Url) :
+    NI2 Q (keyChangeStep ca e old u) := by
+  rw [keyChangeStep_nf]; nwalk [NI2.saveAccount H, NI2.registerAccount H, NI2.checkNewKey H _] H
+theorem NI2.keyChangeChecked (old : KeyId) (u : Url) : NI2 Q (keyChangeChecked e old u) := by
+  unfold AccountMulti.keyChangeChecked
+  nwalk [NI2.keyChangeStep H _ _ _, NI2.checkNewKey H _] H
+theorem NI2.updateAccountKey (v : Variant) : NI2 Q (updateAccountKey v e) := by
+  unfold AccountMulti.updateAccountKey
+  nwalk [NI2.keyChangeStep H _ _ _, NI2.keyChangeChecked H _ _] H
 theorem NI2.synchronize (v : Variant) : NI2 Q (synchronize v e) := by
   unfold AccountMulti.synchronize
-  nwalk [NI2.registerAccount H, NI2.updateAccountContacts H, NI2.updateAccountKey H] H
+  nwalk [NI2.registerAccount H, NI2.updateAccountContacts H, NI2.updateAccountKey H v] H
 end NIWalk
 
 /-- (c) Two states that differ only in the records of endpoints other than `e` (and in what is on
@@ -755,11 +1035,17 @@ theorem RelE.prims (e : EpName) : QPrims (RelE e) e where
     constructor
     intro s1 s2 h
     obtain ⟨h1, h2, h3, h4, h5⟩ := h
-    unfold exchange
-    rw [h1]
+    rw [exchange_run, exchange_run, h1]
     cases s2.exs with
     | nil => exact ⟨rfl, h1, h2, h3, h4, h5⟩
-    | cons r rest => exact ⟨rfl, rfl, h2, by simp [h3], h4, h5⟩
+    | cons r rest =>
+      refine ⟨rfl, rfl, h2, by simp [MWorld.afterExch, h3], h4, ?_⟩
+      simp only [MWorld.afterExch, Account.withEndpoints, Account.getEndpoint, h4]
+      unfold Account.getEndpoint at h5
+      by_cases he : e = ep
+      · subst he
+        rw [lookupEp_modFirst_same, lookupEp_modFirst_same, h5]
+      · rw [lookupEp_modFirst_other he, lookupEp_modFirst_other he, h5]
   hooks := by
     intro ty
     constructor
@@ -863,11 +1149,23 @@ theorem RelG.prims (e : EpName) : QPrims RelG e where
     constructor
     intro s1 s2 h
     obtain ⟨h1, h2, h3, h4, h5⟩ := h
-    unfold exchange
-    rw [h1]
+    rw [exchange_run, exchange_run, h1]
     cases s2.exs with
     | nil => exact ⟨rfl, h1, h2, h3, h4, h5⟩
-    | cons r rest => exact ⟨rfl, rfl, h2, by simp [h3], h4, h5⟩
+    | cons r rest =>
+      refine ⟨rfl, rfl, h2, by simp [MWorld.afterExch, h3], h4, ?_⟩
+      simp only [MWorld.afterExch, Account.withEndpoints, h4]
+      refine modFirst_scrub ep _ ?_ _ _ h5
+      intro r1 r2 hr
+      obtain ⟨g1, g2, g3, g4, g5, g6⟩ := stored_fields hr
+      cases r with
+      | lost =>
+        by_cases hk1 : k = .keyChange
+        · subst hk1; simp [exchUpd, lostUpd, EpRec.stored, g1, g2, g3, g4, g5, g6]
+        · by_cases hk2 : k = .accountUpdate
+          · subst hk2; simp [exchUpd, lostUpd, EpRec.stored, g1, g2, g3, g4, g5, g6]
+          · simp only [exchUpd, lostUpd_id hk1 hk2]; exact hr
+      | _ => exact hr
   hooks := by
     intro ty
     constructor
@@ -908,6 +1206,37 @@ def MWorld.afterReq (s : MWorld) (ev : MEv) (rest : List Ans) : MWorld :=
 def MWorld.setEp (s : MWorld) (e : EpName) (g : EpRec → EpRec) : MWorld :=
   { s with acct := { s.acct with endpoints := modFirst e g s.acct.endpoints } }
 
+theorem setEp_id (s : MWorld) (e : EpName) : s.setEp e (fun r => r) = s := by
+  unfold MWorld.setEp
+  rw [modFirst_id]
+
+theorem exchUpd_ne_lost {k : ReqKind} {a : Ans} (h : a ≠ .lost) (sh : Shared) :
+    exchUpd k a sh = fun r => r := by
+  cases a <;> first | rfl | exact absurd rfl h
+
+/-- `exchange` in terms of `afterReq` / `setEp`. -/
+theorem exchange_run2 (ep : EpName) (k : ReqKind) (tg : Target) (sg : KeyId) (kid : Url)
+    (s : MWorld) :
+    exchange ep k tg sg kid s = match s.exs with
+      | [] => (.stuck, s)
+      | a :: rest => (.val a,
+          (s.afterReq (.req ep k tg sg kid a) rest).setEp ep (exchUpd k a s.acct.shared)) := by
+  rw [exchange_run]
+  rcases s.exs with _ | ⟨a, rest⟩ <;> rfl
+
+/-- After an exchange whose answer is not `lost` (or whose kind has no ghost effect) the account is
+the one before. -/
+theorem afterReq_setEp_id {s : MWorld} {ev : MEv} {rest : List Ans} {e : EpName} {k : ReqKind}
+    {a : Ans} (h : a ≠ .lost ∨ (k ≠ .keyChange ∧ k ≠ .accountUpdate)) :
+    (s.afterReq ev rest).setEp e (exchUpd k a s.acct.shared) = s.afterReq ev rest := by
+  have : exchUpd k a s.acct.shared = fun r => r := by
+    rcases h with h | ⟨h1, h2⟩
+    · exact exchUpd_ne_lost h _
+    · cases a with
+      | lost => exact lostUpd_id h1 h2 _
+      | _ => rfl
+  rw [this, setEp_id]
+
 theorem saveAccount_run (s : MWorld) : saveAccount s = match s.hks with
     | [] => (.stuck, s)
     | false :: rest =>
@@ -930,6 +1259,9 @@ theorem modEpM_known {e : EpName} {s : MWorld} {r0 : EpRec} (hk : s.acct.getEndp
     (G : Shared → EpRec → EpRec) : modEpM e G s = (.val (), s.setEp e (G s.acct.shared)) := by
   rw [modEpM_run, hk]; rfl
 
+theorem afterReq_known {e : EpName} {s : MWorld} {r0 : EpRec} (hk : s.acct.getEndpoint e = some r0)
+    (ev : MEv) (rest : List Ans) : (s.afterReq ev rest).acct.getEndpoint e = some r0 := hk
+
 theorem registerAccount_run (e : EpName) (s : MWorld) (r0 : EpRec)
     (hk : s.acct.getEndpoint e = some r0) :
     registerAccount e s = match s.exs with
@@ -942,16 +1274,14 @@ theorem registerAccount_run (e : EpName) (s : MWorld) (r0 : EpRec)
         | _ => (.fail .register,
             s.afterReq (.req e .newAccount (.dirNewAccount e) s.acct.shared.currentKey 0 a) rest) := by
   rw [registerAccount_nf]
-  simp only [bind_run, getShared, exchange]
+  simp only [bind_run, getShared, exchange_run2]
   rcases s.exs with _ | ⟨a, rest⟩
   · rfl
   · simp only
+    rw [afterReq_setEp_id (.inr ⟨by simp, by simp⟩)]
     split
     · rename_i loc o ex
-      have hk' : ({ s with exs := rest, log := s.log ++ [MEv.req e .newAccount (.dirNewAccount e)
-          s.acct.shared.currentKey 0 (.account ⟨some loc, o, ex⟩)] } : MWorld).acct.getEndpoint e
-          = some r0 := hk
-      rw [bind_run, modEpM_known hk']
+      rw [bind_run, modEpM_known (afterReq_known hk _ _)]
       rfl
     · rfl
 
@@ -971,55 +1301,136 @@ theorem updateAccountContacts_run (e : EpName) (s : MWorld) (r0 : EpRec)
         | .acmeErr .accountDoesNotExist =>
           registerAccount e (s.afterReq (.req e .accountUpdate (.url r0.accountUrl)
             s.acct.shared.currentKey r0.accountUrl a) rest)
+        | .lost => (.fail .accountUpdate, (s.afterReq (.req e .accountUpdate (.url r0.accountUrl)
+            s.acct.shared.currentKey r0.accountUrl a) rest).setEp e
+              (lostUpd .accountUpdate s.acct.shared))
         | _ => (.fail .accountUpdate, s.afterReq (.req e .accountUpdate (.url r0.accountUrl)
             s.acct.shared.currentKey r0.accountUrl a) rest) := by
   rw [updateAccountContacts_nf]
-  simp only [bind_run, getShared, getEndpointM_known hk, exchange]
+  simp only [bind_run, getShared, getEndpointM_known hk, exchange_run2]
+  rcases s.exs with _ | ⟨a, rest⟩
+  · rfl
+  · have hst : r0.stored.accountUrl = r0.accountUrl := rfl
+    simp only [hst]
+    cases a with
+    | lost => rfl
+    | account x =>
+      rw [afterReq_setEp_id (.inl (by simp))]
+      simp only
+      rw [bind_run, modEpM_known (afterReq_known hk _ _)]; rfl
+    | okOther =>
+      rw [afterReq_setEp_id (.inl (by simp))]
+      simp only
+      rw [bind_run, modEpM_known (afterReq_known hk _ _)]; rfl
+    | acmeErr ty =>
+      rw [afterReq_setEp_id (.inl (by simp))]
+      cases ty <;> rfl
+    | otherErr =>
+      rw [afterReq_setEp_id (.inl (by simp))]
+      rfl
+
+theorem checkNewKey_run (e : EpName) (u : Url) (s : MWorld) (r0 : EpRec)
+    (hk : s.acct.getEndpoint e = some r0) :
+    checkNewKey e u s = match s.exs with
+      | [] => (.stuck, s)
+      | a :: rest =>
+        match a with
+        | .account _ | .okOther =>
+          saveAccount ((s.afterReq (.req e .accountProbe (.url u) s.acct.shared.currentKey u a)
+            rest).setEp e (keyUpd s.acct.shared))
+        | _ => (.fail .keyChange,
+            s.afterReq (.req e .accountProbe (.url u) s.acct.shared.currentKey u a) rest) := by
+  rw [checkNewKey_nf]
+  simp only [bind_run, getShared, exchange_run2]
   rcases s.exs with _ | ⟨a, rest⟩
   · rfl
   · simp only
-    have hk' : ∀ ev, ({ s with exs := rest, log := s.log ++ [ev] } : MWorld).acct.getEndpoint e
-          = some r0 := fun _ => hk
-    split
-    · rw [bind_run, modEpM_known (hk' _)]; rfl
-    · rw [bind_run, modEpM_known (hk' _)]; rfl
-    · rfl
-    · rfl
+    rw [afterReq_setEp_id (.inr ⟨by simp, by simp⟩)]
+    cases a with
+    | account x => simp only; rw [bind_run, modEpM_known (afterReq_known hk _ _)]; rfl
+    | okOther => simp only; rw [bind_run, modEpM_known (afterReq_known hk _ _)]; rfl
+    | _ => rfl
 
-theorem updateAccountKey_run (e : EpName) (s : MWorld) (r0 : EpRec)
+theorem keyChangeStep_run (ca : Bool) (e : EpName) (old : KeyId) (u : Url) (s : MWorld) (r0 : EpRec)
     (hk : s.acct.getEndpoint e = some r0) :
-    updateAccountKey e s = match s.acct.shared.getPastKey r0.keyHash with
+    keyChangeStep ca e old u s = match s.exs with
+      | [] => (.stuck, s)
+      | a :: rest =>
+        match a with
+        | .account _ | .okOther =>
+          saveAccount ((s.afterReq (.req e .keyChange (.dirKeyChange e) old u a)
+            rest).setEp e (keyUpd s.acct.shared))
+        | .acmeErr .accountDoesNotExist =>
+          registerAccount e (s.afterReq (.req e .keyChange (.dirKeyChange e) old u a) rest)
+        | .acmeErr _ =>
+          if ca = true then
+            checkNewKey e u (s.afterReq (.req e .keyChange (.dirKeyChange e) old u a) rest)
+          else (.fail .keyChange, s.afterReq (.req e .keyChange (.dirKeyChange e) old u a) rest)
+        | .lost => (.fail .keyChange, (s.afterReq (.req e .keyChange (.dirKeyChange e) old u a)
+            rest).setEp e (lostUpd .keyChange s.acct.shared))
+        | .otherErr =>
+          (.fail .keyChange, s.afterReq (.req e .keyChange (.dirKeyChange e) old u a) rest) := by
+  rw [keyChangeStep_nf]
+  simp only [bind_run, exchange_run2]
+  rcases s.exs with _ | ⟨a, rest⟩
+  · rfl
+  · simp only
+    cases a with
+    | lost => rfl
+    | account x =>
+      rw [afterReq_setEp_id (.inl (by simp))]
+      simp only
+      rw [bind_run, modEpM_known (afterReq_known hk _ _)]; rfl
+    | okOther =>
+      rw [afterReq_setEp_id (.inl (by simp))]
+      simp only
+      rw [bind_run, modEpM_known (afterReq_known hk _ _)]; rfl
+    | acmeErr ty =>
+      rw [afterReq_setEp_id (.inl (by simp))]
+      cases ty <;> cases ca <;> rfl
+    | otherErr =>
+      rw [afterReq_setEp_id (.inl (by simp))]
+      rfl
+
+theorem keyChangeChecked_run (e : EpName) (old : KeyId) (u : Url) (s : MWorld) :
+    keyChangeChecked e old u s = match s.exs with
+      | [] => (.stuck, s)
+      | a :: rest =>
+        match a with
+        | .account _ | .okOther =>
+          keyChangeStep false e old u (s.afterReq (.req e .accountProbe (.url u) old u a) rest)
+        | .acmeErr .accountDoesNotExist =>
+          keyChangeStep false e old u (s.afterReq (.req e .accountProbe (.url u) old u a) rest)
+        | .acmeErr .sigRefused =>
+          checkNewKey e u (s.afterReq (.req e .accountProbe (.url u) old u a) rest)
+        | _ => (.fail .keyChange, s.afterReq (.req e .accountProbe (.url u) old u a) rest) := by
+  unfold keyChangeChecked
+  simp only [bind_run, exchange_run2]
+  rcases s.exs with _ | ⟨a, rest⟩
+  · rfl
+  · simp only
+    rw [afterReq_setEp_id (.inr ⟨by simp, by simp⟩)]
+    cases a with
+    | acmeErr ty => cases ty <;> rfl
+    | _ => rfl
+
+theorem updateAccountKey_run (v : Variant) (e : EpName) (s : MWorld) (r0 : EpRec)
+    (hk : s.acct.getEndpoint e = some r0) :
+    updateAccountKey v e s = match s.acct.shared.getPastKey r0.keyHash with
       | none => (.fail .pastKey, s)
       | some old =>
-        match s.exs with
-        | [] => (.stuck, s)
-        | a :: rest =>
-          match a with
-          | .account _ | .okOther =>
-            saveAccount ((s.afterReq (.req e .keyChange (.dirKeyChange e) old r0.accountUrl a)
-              rest).setEp e (keyUpd s.acct.shared))
-          | .acmeErr .accountDoesNotExist =>
-            registerAccount e (s.afterReq (.req e .keyChange (.dirKeyChange e) old r0.accountUrl a)
-              rest)
-          | _ => (.fail .keyChange,
-              s.afterReq (.req e .keyChange (.dirKeyChange e) old r0.accountUrl a) rest) := by
-  rw [updateAccountKey_nf]
+        match v.rolloverCheck with
+        | .first => keyChangeChecked e old r0.accountUrl s
+        | .afterRefusal => keyChangeStep true e old r0.accountUrl s
+        | .none => keyChangeStep false e old r0.accountUrl s := by
+  unfold updateAccountKey
   simp only [bind_run, getShared, getEndpointM_known hk]
   have hst : r0.stored.keyHash = r0.keyHash := rfl
-  rw [hst]
+  have hsu : r0.stored.accountUrl = r0.accountUrl := rfl
+  rw [hst, hsu]
   rcases s.acct.shared.getPastKey r0.keyHash with _ | old
   · rfl
-  · simp only [bind_run, exchange]
-    rcases s.exs with _ | ⟨a, rest⟩
-    · rfl
-    · simp only
-      have hk' : ∀ ev, ({ s with exs := rest, log := s.log ++ [ev] } : MWorld).acct.getEndpoint e
-            = some r0 := fun _ => hk
-      split
-      · rw [bind_run, modEpM_known (hk' _)]; rfl
-      · rw [bind_run, modEpM_known (hk' _)]; rfl
-      · rfl
-      · rfl
+  · cases v.rolloverCheck <;> rfl
 
 /-! ### 5. Refinement: the view of `synchronize v e` is `Flow.synchronize v` -/
 
@@ -1140,7 +1551,7 @@ theorem registerAccount_sim {e : EpName} {s : MWorld} {w : Flow.World} (h : SimR
   · have hs := h.afterReq hx .newAccount (by simp) (.dirNewAccount e) s.acct.shared.currentKey 0
     rw [← hcur] at hs
     simp only [List.map_cons]
-    rcases a with ⟨_ | loc, o, ex⟩ | _ | ty | _
+    rcases a with ⟨_ | loc, o, ex⟩ | _ | ty | _ | _
     · exact ⟨⟨rfl, by simp⟩, by rw [hcur] at hs ⊢; exact hs⟩
     · have hl : loc ≠ 0 := by
         rintro rfl
@@ -1154,6 +1565,34 @@ theorem registerAccount_sim {e : EpName} {s : MWorld} {w : Flow.World} (h : SimR
     · exact ⟨⟨rfl, by simp⟩, by rw [hcur] at hs ⊢; exact hs⟩
     · exact ⟨⟨rfl, by simp⟩, by rw [hcur] at hs ⊢; exact hs⟩
     · exact ⟨⟨rfl, by simp⟩, by rw [hcur] at hs ⊢; exact hs⟩
+    · exact ⟨⟨rfl, by simp⟩, by rw [hcur] at hs ⊢; exact hs⟩
+
+theorem view_keyLost {a : Flow.Acc} {sh : Shared} {r0 : EpRec}
+    (h : forgetPk a = forgetPk (viewAcc sh r0)) :
+    forgetPk (Flow.keyLostAcc a) = forgetPk (viewAcc sh (lostUpd .keyChange sh r0)) := by
+  obtain ⟨h1, h2, h3, h4, h5, h6, h7⟩ := forgetPk_fields h
+  simp only [viewAcc] at h1 h2 h3 h4 h5 h6 h7
+  unfold forgetPk Flow.keyLostAcc viewAcc lostUpd bindingChanged
+  simp only [Flow.Acc.mk.injEq, h1, h2, h4, h5, h7, true_and, and_true]
+  simpa [bindingChanged] using h3
+
+theorem view_contactsLost {a : Flow.Acc} {sh : Shared} {r0 : EpRec}
+    (h : forgetPk a = forgetPk (viewAcc sh r0)) :
+    forgetPk (Flow.contactsLostAcc a) = forgetPk (viewAcc sh (lostUpd .accountUpdate sh r0)) := by
+  obtain ⟨h1, h2, h3, h4, h5, h6, h7⟩ := forgetPk_fields h
+  simp only [viewAcc] at h1 h2 h3 h4 h5 h6 h7
+  unfold forgetPk Flow.contactsLostAcc viewAcc lostUpd bindingChanged
+  simp only [Flow.Acc.mk.injEq, h1, h2, h4, h5, h6, true_and]
+  refine ⟨?_, by simp⟩
+  simpa [bindingChanged] using h3
+
+/-- A ghost-only write on both sides. -/
+theorem SimR.setGhost {e : EpName} {s : MWorld} {w : Flow.World} (h : SimR e s w) {r0 : EpRec}
+    (hk : s.acct.getEndpoint e = some r0) (g : EpRec → EpRec) (f : Flow.Acc)
+    (hv : forgetPk f = forgetPk (viewAcc s.acct.shared (g r0))) :
+    SimR e (s.setEp e g) (w.withAcc f) := by
+  obtain ⟨_, hx, hh, ht, hn⟩ := h
+  exact ⟨⟨_, getEndpoint_setEp hk g, hv⟩, hx, hh, ht, hn⟩
 
 theorem updateAccountContacts_sim {e : EpName} {s : MWorld} {w : Flow.World} (h : SimR e s w) :
     SimOut (updateAccountContacts e s).1 (Flow.updateContacts w).1 ∧
@@ -1181,14 +1620,18 @@ theorem updateAccountContacts_sim {e : EpName} {s : MWorld} {w : Flow.World} (h 
       obtain ⟨_, hx', hh', ht', hn'⟩ := hs
       exact ⟨⟨_, getEndpoint_setEp (s := s.afterReq _ rest) hk _, view_contactsUpd hacc⟩,
         hx', hh', by rw [hcur] at ht' ⊢; exact ht', hn'⟩
-    rcases a with acc | _ | ty | _
+    rcases a with acc | _ | ty | _ | _
     · exact hsave _ rfl
     · exact hsave _ rfl
     · cases ty
       · rw [hcur] at hs ⊢
         exact registerAccount_sim hs
       · exact ⟨⟨rfl, by simp⟩, by rw [hcur] at hs ⊢; exact hs⟩
+      · exact ⟨⟨rfl, by simp⟩, by rw [hcur] at hs ⊢; exact hs⟩
     · exact ⟨⟨rfl, by simp⟩, by rw [hcur] at hs ⊢; exact hs⟩
+    · refine ⟨⟨rfl, by simp⟩, ?_⟩
+      rw [hcur] at hs ⊢
+      exact hs.setGhost (afterReq_known hk _ _) _ _ (view_contactsLost hacc)
 
 theorem getPastKey_some {sh : Shared} {h : Option KeyId} {old : KeyId}
     (hp : sh.getPastKey h = some old) : h = some old ∧ old ∈ sh.pastKeys := by
@@ -1201,15 +1644,104 @@ theorem getPastKey_some {sh : Shared} {h : Option KeyId} {old : KeyId}
     have : old = k := by simpa using h1
     exact ⟨by rw [this], h2⟩
 
-theorem updateAccountKey_sim {e : EpName} {s : MWorld} {w : Flow.World} (h : SimR e s w)
-    (hpk : ∀ r, s.acct.getEndpoint e = some r →
-      w.acc.pastKeyKnown = (s.acct.shared.getPastKey r.keyHash).isSome) :
-    SimOut (updateAccountKey e s).1 (Flow.updateKey w).1 ∧
-    SimR e (updateAccountKey e s).2 (Flow.updateKey w).2 := by
+theorem checkNewKey_sim {e : EpName} {s : MWorld} {w : Flow.World} (h : SimR e s w) (u : Url) :
+    SimOut (checkNewKey e u s).1 (Flow.checkNewKey w).1 ∧
+    SimR e (checkNewKey e u s).2 (Flow.checkNewKey w).2 := by
   obtain ⟨r0, hk, hacc⟩ := h.ep
   have hcur : w.acc.curKey = s.acct.shared.currentKey := (forgetPk_fields hacc).2.2.2.1
+  rw [checkNewKey_run e u s r0 hk, Flow.checkNewKey_run, h.exs]
+  rcases hx : s.exs with _ | ⟨a, rest⟩
+  · exact ⟨⟨rfl, by simp⟩, h⟩
+  · have hs := h.afterReq hx .accountProbe (by simp) (.url u) s.acct.shared.currentKey u
+    rw [← hcur] at hs
+    simp only [List.map_cons]
+    have hsave : ∀ b, a.abs = .ok b →
+        SimOut (saveAccount ((s.afterReq (.req e .accountProbe (.url u)
+          s.acct.shared.currentKey u a) rest).setEp e (keyUpd s.acct.shared))).1
+          (Flow.saveAccount ((w.afterExch .accountProbe w.acc.curKey a.abs
+            (rest.map Ans.abs)).withAcc (Flow.keyAcc w.acc))).1 ∧
+        SimR e (saveAccount ((s.afterReq (.req e .accountProbe (.url u)
+          s.acct.shared.currentKey u a) rest).setEp e (keyUpd s.acct.shared))).2
+          (Flow.saveAccount ((w.afterExch .accountProbe w.acc.curKey a.abs
+            (rest.map Ans.abs)).withAcc (Flow.keyAcc w.acc))).2 := by
+      intro b _
+      apply saveAccount_sim
+      obtain ⟨_, hx', hh', ht', hn'⟩ := hs
+      exact ⟨⟨_, getEndpoint_setEp (s := s.afterReq _ rest) hk _, view_keyUpd hacc⟩,
+        hx', hh', by rw [hcur] at ht' ⊢; exact ht', hn'⟩
+    rcases a with acc | _ | ty | _ | _
+    · exact hsave _ rfl
+    · exact hsave _ rfl
+    · exact ⟨⟨rfl, by simp⟩, by rw [hcur] at hs ⊢; exact hs⟩
+    · exact ⟨⟨rfl, by simp⟩, by rw [hcur] at hs ⊢; exact hs⟩
+    · exact ⟨⟨rfl, by simp⟩, by rw [hcur] at hs ⊢; exact hs⟩
+
+theorem keyChangeStep_sim {e : EpName} {s : MWorld} {w : Flow.World} (h : SimR e s w)
+    (ca : Bool) (old : KeyId) (u : Url) (hold : w.acc.recKey = old) :
+    SimOut (keyChangeStep ca e old u s).1 (Flow.keyChangeStep ca w).1 ∧
+    SimR e (keyChangeStep ca e old u s).2 (Flow.keyChangeStep ca w).2 := by
+  obtain ⟨r0, hk, hacc⟩ := h.ep
+  rw [keyChangeStep_run ca e old u s r0 hk, Flow.keyChangeStep_run, h.exs, hold]
+  rcases hx : s.exs with _ | ⟨a, rest⟩
+  · exact ⟨⟨rfl, by simp⟩, h⟩
+  · have hs := h.afterReq hx .keyChange (by simp) (.dirKeyChange e) old u
+    simp only [List.map_cons]
+    have hsave : ∀ b, a.abs = .ok b →
+        SimOut (saveAccount ((s.afterReq (.req e .keyChange (.dirKeyChange e) old
+          u a) rest).setEp e (keyUpd s.acct.shared))).1
+          (Flow.saveAccount ((w.afterExch .keyChange old a.abs
+            (rest.map Ans.abs)).withAcc (Flow.keyAcc w.acc))).1 ∧
+        SimR e (saveAccount ((s.afterReq (.req e .keyChange (.dirKeyChange e) old
+          u a) rest).setEp e (keyUpd s.acct.shared))).2
+          (Flow.saveAccount ((w.afterExch .keyChange old a.abs
+            (rest.map Ans.abs)).withAcc (Flow.keyAcc w.acc))).2 := by
+      intro b _
+      apply saveAccount_sim
+      obtain ⟨_, hx', hh', ht', hn'⟩ := hs
+      exact ⟨⟨_, getEndpoint_setEp (s := s.afterReq _ rest) hk _, view_keyUpd hacc⟩,
+        hx', hh', ht', hn'⟩
+    rcases a with acc | _ | ty | _ | _
+    · exact hsave _ rfl
+    · exact hsave _ rfl
+    · cases ty
+      · exact registerAccount_sim hs
+      · cases ca
+        · exact ⟨⟨rfl, by simp⟩, hs⟩
+        · exact checkNewKey_sim hs u
+      · cases ca
+        · exact ⟨⟨rfl, by simp⟩, hs⟩
+        · exact checkNewKey_sim hs u
+    · exact ⟨⟨rfl, by simp⟩, hs⟩
+    · exact ⟨⟨rfl, by simp⟩, hs.setGhost (afterReq_known hk _ _) _ _ (view_keyLost hacc)⟩
+
+theorem keyChangeChecked_sim {e : EpName} {s : MWorld} {w : Flow.World} (h : SimR e s w)
+    (old : KeyId) (u : Url) (hold : w.acc.recKey = old) :
+    SimOut (keyChangeChecked e old u s).1 (Flow.keyChangeChecked w).1 ∧
+    SimR e (keyChangeChecked e old u s).2 (Flow.keyChangeChecked w).2 := by
+  rw [keyChangeChecked_run e old u s, Flow.keyChangeChecked_run, h.exs, hold]
+  rcases hx : s.exs with _ | ⟨a, rest⟩
+  · exact ⟨⟨rfl, by simp⟩, h⟩
+  · have hs := h.afterReq hx .accountProbe (by simp) (.url u) old u
+    simp only [List.map_cons]
+    rcases a with acc | _ | ty | _ | _
+    · exact keyChangeStep_sim hs false old u hold
+    · exact keyChangeStep_sim hs false old u hold
+    · cases ty
+      · exact keyChangeStep_sim hs false old u hold
+      · exact checkNewKey_sim hs u
+      · exact ⟨⟨rfl, by simp⟩, hs⟩
+    · exact ⟨⟨rfl, by simp⟩, hs⟩
+    · exact ⟨⟨rfl, by simp⟩, hs⟩
+
+theorem updateAccountKey_sim (v : Variant) {e : EpName} {s : MWorld} {w : Flow.World}
+    (h : SimR e s w)
+    (hpk : ∀ r, s.acct.getEndpoint e = some r →
+      w.acc.pastKeyKnown = (s.acct.shared.getPastKey r.keyHash).isSome) :
+    SimOut (updateAccountKey v e s).1 (Flow.updateKey v w).1 ∧
+    SimR e (updateAccountKey v e s).2 (Flow.updateKey v w).2 := by
+  obtain ⟨r0, hk, hacc⟩ := h.ep
   have hrec : w.acc.recKey = (viewAcc s.acct.shared r0).recKey := (forgetPk_fields hacc).2.2.2.2.1
-  rw [updateAccountKey_run e s r0 hk, Flow.updateKey_run, hpk r0 hk]
+  rw [updateAccountKey_run v e s r0 hk, Flow.updateKey_run, hpk r0 hk]
   rcases hp : s.acct.shared.getPastKey r0.keyHash with _ | old
   · exact ⟨⟨rfl, by simp⟩, h⟩
   · simp only [Option.isSome_some, if_true]
@@ -1217,32 +1749,10 @@ theorem updateAccountKey_sim {e : EpName} {s : MWorld} {w : Flow.World} (h : Sim
       rw [hrec]
       have := (getPastKey_some hp).1
       simp [viewAcc, this]
-    rw [h.exs, hold]
-    rcases hx : s.exs with _ | ⟨a, rest⟩
-    · exact ⟨⟨rfl, by simp⟩, h⟩
-    · have hs := h.afterReq hx .keyChange (by simp) (.dirKeyChange e) old r0.accountUrl
-      simp only [List.map_cons]
-      have hsave : ∀ b, a.abs = .ok b →
-          SimOut (saveAccount ((s.afterReq (.req e .keyChange (.dirKeyChange e) old
-            r0.accountUrl a) rest).setEp e (keyUpd s.acct.shared))).1
-            (Flow.saveAccount ((w.afterExch .keyChange old a.abs
-              (rest.map Ans.abs)).withAcc (Flow.keyAcc w.acc))).1 ∧
-          SimR e (saveAccount ((s.afterReq (.req e .keyChange (.dirKeyChange e) old
-            r0.accountUrl a) rest).setEp e (keyUpd s.acct.shared))).2
-            (Flow.saveAccount ((w.afterExch .keyChange old a.abs
-              (rest.map Ans.abs)).withAcc (Flow.keyAcc w.acc))).2 := by
-        intro b _
-        apply saveAccount_sim
-        obtain ⟨_, hx', hh', ht', hn'⟩ := hs
-        exact ⟨⟨_, getEndpoint_setEp (s := s.afterReq _ rest) hk _, view_keyUpd hacc⟩,
-          hx', hh', ht', hn'⟩
-      rcases a with acc | _ | ty | _
-      · exact hsave _ rfl
-      · exact hsave _ rfl
-      · cases ty
-        · exact registerAccount_sim hs
-        · exact ⟨⟨rfl, by simp⟩, hs⟩
-      · exact ⟨⟨rfl, by simp⟩, hs⟩
+    cases v.rolloverCheck with
+    | first => exact keyChangeChecked_sim h old r0.accountUrl hold
+    | afterRefusal => exact keyChangeStep_sim h true old r0.accountUrl hold
+    | none => exact keyChangeStep_sim h false old r0.accountUrl hold
 
 theorem sim_bind {e : EpName} {m m' : MM Unit} {fm fm' : Flow.M Unit} {s : MWorld}
     {w : Flow.World} (h1 : SimOut (m s).1 (fm w).1 ∧ SimR e (m s).2 (fm w).2)
@@ -1281,14 +1791,14 @@ theorem synchronize_run (v : Variant) (e : EpName) (s : MWorld) (r0 : EpRec)
                 !(r0.keyHash != some s.acct.shared.currentKey))) = true
             then updateAccountContacts e else pure ())
         else if v.keyFirst = true then
-          ((if (r0.keyHash != some s.acct.shared.currentKey) = true then updateAccountKey e
+          ((if (r0.keyHash != some s.acct.shared.currentKey) = true then updateAccountKey v e
             else pure ()) >>= fun _ =>
            if (r0.contactsHash != some s.acct.shared.contacts) = true then updateAccountContacts e
            else pure ())
         else
           ((if (r0.contactsHash != some s.acct.shared.contacts) = true then updateAccountContacts e
             else pure ()) >>= fun _ =>
-           if (r0.keyHash != some s.acct.shared.currentKey) = true then updateAccountKey e
+           if (r0.keyHash != some s.acct.shared.currentKey) = true then updateAccountKey v e
            else pure ())
       else registerAccount e) s := by
   unfold synchronize
@@ -1334,7 +1844,7 @@ theorem synchronize_sim (v : Variant) (hv : v.keyFirst = true) {e : EpName} {s :
       simp only [Bool.not_not]
       refine sim_bind ?_ ?_
       · split
-        · exact updateAccountKey_sim h hpk
+        · exact updateAccountKey_sim v h hpk
         · exact sim_pure h
       · intro s1 w1 h1
         split
@@ -1430,39 +1940,120 @@ theorem log_of_bind {m m' : MM Unit} {s : MWorld} {es1 : List MEv} {P : MEv → 
     exact ⟨es2, by rw [e2, hl, h1, List.append_assoc], hp⟩
   · exact ⟨[], by rw [e3, h1]; simp, by simp⟩
 
-/-- Events of `update_account_key`: nothing, or the keyChange request through `e` to `e`'s
-`keyChange` URL, signed by the key whose fingerprint the record carries (a past key of the
-account), `kid` = the recorded account URL, followed by no other keyChange request. -/
-theorem updateAccountKey_shape (e : EpName) (s : MWorld) (r0 : EpRec)
-    (hk : s.acct.getEndpoint e = some r0) :
-    ∃ es, (updateAccountKey e s).2.log = s.log ++ es ∧
-      (es = [] ∨ ∃ old a rest, r0.keyHash = some old ∧ old ∈ s.acct.shared.pastKeys ∧
-        es = .req e .keyChange (.dirKeyChange e) old r0.accountUrl a :: rest ∧
+/-- Events of the roll-over request and what follows: nothing, or the keyChange request through `e`
+to `e`'s `keyChange` URL, signed by `old`, `kid` = `u`, followed by no other keyChange request. -/
+theorem keyChangeStep_shape (ca : Bool) (e : EpName) (old : KeyId) (u : Url) (s : MWorld)
+    (r0 : EpRec) (hk : s.acct.getEndpoint e = some r0) :
+    ∃ es, (keyChangeStep ca e old u s).2.log = s.log ++ es ∧
+      (es = [] ∨ ∃ a rest, es = .req e .keyChange (.dirKeyChange e) old u a :: rest ∧
         ∀ ev ∈ rest, NotKeyChange ev) := by
-  rw [updateAccountKey_run e s r0 hk]
-  rcases hp : s.acct.shared.getPastKey r0.keyHash with _ | old
+  rw [keyChangeStep_run ca e old u s r0 hk]
+  rcases s.exs with _ | ⟨a, rest⟩
   · exact ⟨[], by simp, .inl rfl⟩
+  · simp only
+    have key : ∀ (m : MM Unit) (s1 : MWorld), MSat (EvR NotKeyChange) m →
+        s1.log = s.log ++ [.req e .keyChange (.dirKeyChange e) old u a] →
+        ∃ es, (m s1).2.log = s.log ++ es ∧
+          (es = [] ∨ ∃ a rest, es = .req e .keyChange (.dirKeyChange e) old u a :: rest ∧
+            ∀ ev ∈ rest, NotKeyChange ev) := by
+      intro m s1 hm1 hl
+      obtain ⟨es, he, hp⟩ := hm1.run s1
+      exact ⟨_ :: es, by rw [he, hl]; simp, .inr ⟨a, es, rfl, hp⟩⟩
+    have one : ∀ s1 : MWorld, s1.log = s.log ++ [.req e .keyChange (.dirKeyChange e) old u a] →
+        ∃ es, s1.log = s.log ++ es ∧
+          (es = [] ∨ ∃ a rest, es = .req e .keyChange (.dirKeyChange e) old u a :: rest ∧
+            ∀ ev ∈ rest, NotKeyChange ev) :=
+      fun s1 hl => ⟨[_], hl, .inr ⟨a, [], rfl, by simp⟩⟩
+    rcases a with acc | _ | ty | _ | _
+    · exact key saveAccount _ NotKeyChange.saveAccount rfl
+    · exact key saveAccount _ NotKeyChange.saveAccount rfl
+    · cases ty
+      · exact key (registerAccount e) _ (NotKeyChange.registerAccount e) rfl
+      · cases ca
+        · exact one _ rfl
+        · exact key (checkNewKey e u) _ (NotKeyChange.checkNewKey e u) rfl
+      · cases ca
+        · exact one _ rfl
+        · exact key (checkNewKey e u) _ (NotKeyChange.checkNewKey e u) rfl
+    · exact one _ rfl
+    · exact one _ rfl
+
+/-- Events of `update_account_key`: no keyChange request at all, or exactly one — through `e` to
+`e`'s `keyChange` URL, signed by the key whose fingerprint the record carries (a past key of the
+account), `kid` = the recorded account URL — preceded by nothing, or (since 1fb1c1a) by the query of
+the account signed by that same key (through `e`, to the recorded account URL, which is also its
+`kid`), and followed by no other keyChange request. -/
+theorem updateAccountKey_shape (v : Variant) (e : EpName) (s : MWorld) (r0 : EpRec)
+    (hk : s.acct.getEndpoint e = some r0) :
+    ∃ es, (updateAccountKey v e s).2.log = s.log ++ es ∧
+      ((∀ ev ∈ es, NotKeyChange ev) ∨ ∃ old a pre rest, r0.keyHash = some old ∧
+        old ∈ s.acct.shared.pastKeys ∧
+        es = pre ++ .req e .keyChange (.dirKeyChange e) old r0.accountUrl a :: rest ∧
+        (pre = [] ∨ ∃ p, pre = [.req e .accountProbe (.url r0.accountUrl) old r0.accountUrl p]) ∧
+        ∀ ev ∈ rest, NotKeyChange ev) := by
+  rw [updateAccountKey_run v e s r0 hk]
+  rcases hp : s.acct.shared.getPastKey r0.keyHash with _ | old
+  · exact ⟨[], by simp, .inl (by simp)⟩
   · obtain ⟨hh, hm⟩ := getPastKey_some hp
+    have hstep : ∀ ca, ∃ es, (keyChangeStep ca e old r0.accountUrl s).2.log = s.log ++ es ∧
+        ((∀ ev ∈ es, NotKeyChange ev) ∨ ∃ old a pre rest, r0.keyHash = some old ∧
+          old ∈ s.acct.shared.pastKeys ∧
+          es = pre ++ .req e .keyChange (.dirKeyChange e) old r0.accountUrl a :: rest ∧
+          (pre = [] ∨ ∃ p, pre = [.req e .accountProbe (.url r0.accountUrl) old r0.accountUrl p]) ∧
+          ∀ ev ∈ rest, NotKeyChange ev) := by
+      intro ca
+      obtain ⟨es, he, hs⟩ := keyChangeStep_shape ca e old r0.accountUrl s r0 hk
+      refine ⟨es, he, ?_⟩
+      rcases hs with rfl | ⟨a, rest, rfl, hr⟩
+      · exact .inl (by simp)
+      · exact .inr ⟨old, a, [], rest, hh, hm, rfl, .inl rfl, hr⟩
     simp only
-    rcases s.exs with _ | ⟨a, rest⟩
-    · exact ⟨[], by simp, .inl rfl⟩
-    · simp only
-      have key : ∀ (m : MM Unit) (s1 : MWorld), MSat (EvR NotKeyChange) m →
-          s1.log = s.log ++ [.req e .keyChange (.dirKeyChange e) old r0.accountUrl a] →
-          ∃ es, (m s1).2.log = s.log ++ es ∧
-            (es = [] ∨ ∃ old a rest, r0.keyHash = some old ∧ old ∈ s.acct.shared.pastKeys ∧
-              es = .req e .keyChange (.dirKeyChange e) old r0.accountUrl a :: rest ∧
+    cases v.rolloverCheck with
+    | afterRefusal => exact hstep true
+    | none => exact hstep false
+    | first =>
+      simp only
+      rw [keyChangeChecked_run]
+      rcases s.exs with _ | ⟨p, rest0⟩
+      · exact ⟨[], by simp, .inl (by simp)⟩
+      · simp only
+        have hk1 : (s.afterReq (.req e .accountProbe (.url r0.accountUrl) old r0.accountUrl p)
+            rest0).acct.getEndpoint e = some r0 := hk
+        have viaStep : ∃ es, (keyChangeStep false e old r0.accountUrl (s.afterReq
+              (.req e .accountProbe (.url r0.accountUrl) old r0.accountUrl p) rest0)).2.log
+              = s.log ++ es ∧
+            ((∀ ev ∈ es, NotKeyChange ev) ∨ ∃ old a pre rest, r0.keyHash = some old ∧
+              old ∈ s.acct.shared.pastKeys ∧
+              es = pre ++ .req e .keyChange (.dirKeyChange e) old r0.accountUrl a :: rest ∧
+              (pre = [] ∨ ∃ p, pre = [.req e .accountProbe (.url r0.accountUrl) old r0.accountUrl p]) ∧
               ∀ ev ∈ rest, NotKeyChange ev) := by
-        intro m s1 hm1 hl
-        obtain ⟨es, he, hp⟩ := hm1.run s1
-        exact ⟨_ :: es, by rw [he, hl]; simp, .inr ⟨old, a, es, hh, hm, rfl, hp⟩⟩
-      rcases a with acc | _ | ty | _
-      · exact key saveAccount _ NotKeyChange.saveAccount rfl
-      · exact key saveAccount _ NotKeyChange.saveAccount rfl
-      · cases ty
-        · exact key (registerAccount e) _ (NotKeyChange.registerAccount e) rfl
-        · exact ⟨[_], rfl, .inr ⟨old, _, [], hh, hm, rfl, by simp⟩⟩
-      · exact ⟨[_], rfl, .inr ⟨old, _, [], hh, hm, rfl, by simp⟩⟩
+          obtain ⟨es, he, hs⟩ := keyChangeStep_shape false e old r0.accountUrl _ r0 hk1
+          refine ⟨.req e .accountProbe (.url r0.accountUrl) old r0.accountUrl p :: es,
+            by rw [he]; simp [MWorld.afterReq], ?_⟩
+          rcases hs with rfl | ⟨a, rest, rfl, hr⟩
+          · exact .inl (by simp [NotKeyChange])
+          · exact .inr ⟨old, a, [_], rest, hh, hm, rfl, .inr ⟨p, rfl⟩, hr⟩
+        have viaNew : ∃ es, (checkNewKey e r0.accountUrl (s.afterReq
+              (.req e .accountProbe (.url r0.accountUrl) old r0.accountUrl p) rest0)).2.log
+              = s.log ++ es ∧ ∀ ev ∈ es, NotKeyChange ev := by
+          obtain ⟨es, he, hp⟩ := (NotKeyChange.checkNewKey e r0.accountUrl).run (s.afterReq
+            (.req e .accountProbe (.url r0.accountUrl) old r0.accountUrl p) rest0)
+          refine ⟨.req e .accountProbe (.url r0.accountUrl) old r0.accountUrl p :: es,
+            by rw [he]; simp [MWorld.afterReq], ?_⟩
+          intro ev hev
+          rcases List.mem_cons.mp hev with rfl | h
+          · simp [NotKeyChange]
+          · exact hp ev h
+        rcases p with acc | _ | ty | _ | _
+        · exact viaStep
+        · exact viaStep
+        · cases ty
+          · exact viaStep
+          · obtain ⟨es, he, hp⟩ := viaNew
+            exact ⟨es, he, .inl hp⟩
+          · exact ⟨[_], rfl, .inl (by simp [NotKeyChange])⟩
+        · exact ⟨[_], rfl, .inl (by simp [NotKeyChange])⟩
+        · exact ⟨[_], rfl, .inl (by simp [NotKeyChange])⟩
 
 theorem NotKeyChange.optContacts (e : EpName) (c : Bool) :
     MSat (EvR NotKeyChange) (if c = true then AccountMulti.updateAccountContacts e else pure ()) := by
@@ -1471,13 +2062,15 @@ theorem NotKeyChange.optContacts (e : EpName) (c : Bool) :
   · exact MSat.pure (EvR.law _) _
 
 /-- Events of a whole synchronisation (current order of the updates): no keyChange request at all,
-or exactly one, FIRST, as in `updateAccountKey_shape`. -/
+or exactly one, preceded at most by the query of the account signed by the same key, as in
+`updateAccountKey_shape`. -/
 theorem synchronize_shape (v : Variant) (hv : v.keyFirst = true) (e : EpName) (s : MWorld)
     (r0 : EpRec) (hk : s.acct.getEndpoint e = some r0) :
     ∃ es, (synchronize v e s).2.log = s.log ++ es ∧
-      ((∀ ev ∈ es, NotKeyChange ev) ∨ ∃ old a rest, r0.keyHash = some old ∧
+      ((∀ ev ∈ es, NotKeyChange ev) ∨ ∃ old a pre rest, r0.keyHash = some old ∧
         old ∈ s.acct.shared.pastKeys ∧ old ≠ s.acct.shared.currentKey ∧ r0.accountUrl ≠ 0 ∧
-        es = .req e .keyChange (.dirKeyChange e) old r0.accountUrl a :: rest ∧
+        es = pre ++ .req e .keyChange (.dirKeyChange e) old r0.accountUrl a :: rest ∧
+        (pre = [] ∨ ∃ p, pre = [.req e .accountProbe (.url r0.accountUrl) old r0.accountUrl p]) ∧
         ∀ ev ∈ rest, NotKeyChange ev) := by
   rw [synchronize_run v e s r0 hk]
   by_cases c1 : (r0.accountUrl != 0) = true
@@ -1495,13 +2088,18 @@ theorem synchronize_shape (v : Variant) (hv : v.keyFirst = true) (e : EpName) (s
     · rw [if_neg c2, if_pos hv]
       by_cases c3 : (r0.keyHash != some s.acct.shared.currentKey) = true
       · rw [if_pos c3]
-        obtain ⟨es1, h1, hs1⟩ := updateAccountKey_shape e s r0 hk
+        obtain ⟨es1, h1, hs1⟩ := updateAccountKey_shape v e s r0 hk
         obtain ⟨es2, h2, hp2⟩ := log_of_bind h1 (NotKeyChange.optContacts e
           (r0.contactsHash != some s.acct.shared.contacts))
         refine ⟨es1 ++ es2, h2, ?_⟩
-        rcases hs1 with rfl | ⟨old, a, rest, g1, g2, g3, g4⟩
-        · exact .inl (by simpa using hp2)
-        · refine .inr ⟨old, a, rest ++ es2, g1, g2, ?_, by simpa using c1, by rw [g3]; rfl, ?_⟩
+        rcases hs1 with hs1 | ⟨old, a, pre, rest, g1, g2, g3, g5, g4⟩
+        · left
+          intro ev hev
+          rcases List.mem_append.mp hev with h | h
+          · exact hs1 ev h
+          · exact hp2 ev h
+        · refine .inr ⟨old, a, pre, rest ++ es2, g1, g2, ?_, by simpa using c1,
+            by rw [g3]; simp, g5, ?_⟩
           · rintro rfl
             rw [g1] at c3
             simp at c3
@@ -1548,16 +2146,22 @@ def runOps : List Op → Account → Account
   | [], a => a
   | op :: rest, a => runOps rest (op.run a)
 
-theorem HeldAll.runOps {a : Account} (h : HeldAll a) (ops : List Op) :
-    HeldAll (runOps ops a) := by
+/-- No synchronisation of the history gets an answer "processed, answer lost". -/
+def Op.noLost : Op → Prop
+  | .sync _ _ exs _ => NoLost exs
+  | _ => True
+
+theorem HeldAll.runOps {a : Account} (h : HeldAll a) (ops : List Op)
+    (hn : ∀ op ∈ ops, op.noLost) : HeldAll (runOps ops a) := by
   induction ops generalizing a with
   | nil => exact h
   | cons op rest ih =>
-    apply ih
+    apply ih _ (fun o ho => hn o (List.mem_cons_of_mem _ ho))
+    have h0 := hn op List.mem_cons_self
     cases op with
     | load c k f b => exact h.load c k f b
     | addEndpoint e => exact h.addEndpointName e
-    | sync v e exs hks => exact (HeldR.synchronize v e).run ⟨a, exs, hks, [], none⟩ h
+    | sync v e exs hks => exact ((HeldR.synchronize v e).run ⟨a, exs, hks, [], none⟩ h0 h).1
 
 /-! ### 9. A checker for `HeldAll` (for concrete accounts) -/
 
